@@ -62,6 +62,9 @@ pub enum Variant {
     DustAfter,
     /// the same two debits in the other order
     DustBefore,
+    /// the debiting transaction is a *create transaction* whose constructor calls the delegated
+    /// account (a violation has to restore the create transaction's sender nonce by hand)
+    ViaCreateTx,
 }
 
 #[derive(Clone, Copy, Debug, PartialEq, Eq)]
@@ -179,11 +182,20 @@ pub fn block_ext(debit: Debit, variant: Variant, bal: Bal, k: usize, spec: SpecI
         }
         _ => {
             let to = match variant {
-                Variant::InnerRevert => contract(44),
-                Variant::Nested => contract(46),
-                _ => a(),
+                Variant::InnerRevert => Some(contract(44)),
+                Variant::Nested => Some(contract(46)),
+                Variant::ViaCreateTx => None,
+                _ => Some(a()),
             };
-            let mut t = tx(eoa(0), 0, Some(to), credit, data);
+            let data = if variant == Variant::ViaCreateTx {
+                // constructor: CALL(A, calldata = (sink, amount)); empty runtime code
+                let mut c = Asm::new().push_bytes(&word_addr(sink())).push(0).op(op::MSTORE).push(amount as u64).push(32).op(op::MSTORE);
+                c = c.push(0).push(0).push(64).push(0).push(0).push_addr(a()).op(op::GAS).op(op::CALL).op(op::POP);
+                c.push(0).push(0).op(op::RETURN).build().into()
+            } else {
+                data
+            };
+            let mut t = tx(eoa(0), 0, to, credit, data);
             if auth_in_tx {
                 t = with_auths(t, vec![authorization(a(), a_nonce, target)]);
                 a_nonce += 1;
@@ -191,6 +203,7 @@ pub fn block_ext(debit: Debit, variant: Variant, bal: Bal, k: usize, spec: SpecI
             let via = match variant {
                 Variant::InnerRevert => "relay+revert(A)",
                 Variant::Nested => "relay(A)",
+                Variant::ViaCreateTx => "createtx{call A}",
                 _ => "A",
             };
             txs.push((format!("e0>{via}({debit:?},{variant:?})"), t));
@@ -336,8 +349,9 @@ pub fn blocks(spec: SpecId) -> Vec<Block> {
             Variant::Nested,
             Variant::DustAfter,
             Variant::DustBefore,
+            Variant::ViaCreateTx,
         ] {
-            if matches!(variant, Variant::Refunded | Variant::DustAfter | Variant::DustBefore) && debit != Debit::CallValue {
+            if matches!(variant, Variant::Refunded | Variant::DustAfter | Variant::DustBefore | Variant::ViaCreateTx) && debit != Debit::CallValue {
                 continue;
             }
             if debit == Debit::OwnTopLevelValue && variant != Variant::Plain {
